@@ -74,10 +74,18 @@ impl Uci {
                 .load_position(kind, moves)
                 .map_err(|err| format!("Failed to load position: {err}"))?,
             UCICommand::Go { limits } => {
-                if let Some(jh) = &self.join_handle {
-                    if !jh.is_finished() {
+                if let Some(jh) = self.join_handle.take() {
+                    let still_searching = self
+                        .search_running
+                        .as_ref()
+                        .is_some_and(|r| r.load(std::sync::atomic::Ordering::Relaxed));
+                    if still_searching && !jh.is_finished() {
+                        self.join_handle = Some(jh);
                         return Err("Search is already running".to_string());
                     }
+                    // The previous search was stopped or has announced its move:
+                    // wait for its thread to wind down instead of dropping this go
+                    let _ = jh.join();
                 }
                 self.go(limits);
             }
